@@ -1067,7 +1067,25 @@ public:
   Dom &second() { return m_product.second(); }
 
   bool operator<=(const bool_num_domain_t &other) const override {
-    return m_product <= other.m_product;
+    if (is_bottom()) {
+      return true;
+    } else if (other.is_bottom()) {
+      return false;
+    } else if (!(m_product <= other.m_product)) {
+      return false;
+    }
+    // The facts kept for reduction ("if b is true then ...") restrict
+    // the states described by other: each of them must be also a
+    // fact of this.
+    if (!(m_bool_to_bools <= other.m_bool_to_bools)) {
+      return false;
+    }
+    if (other.m_bool_to_lincsts.is_top() && other.m_bool_to_refcsts.is_top()) {
+      return true;
+    }
+    return (m_bool_to_lincsts <= other.m_bool_to_lincsts &&
+            m_bool_to_refcsts <= other.m_bool_to_refcsts &&
+            m_unchanged_vars <= other.m_unchanged_vars);
   }
 
   bool operator==(const bool_num_domain_t &other) const {
